@@ -86,10 +86,14 @@ def gen_case(rng, kind, nmax=7, malformed=False, directed=None):
     if malformed and r < 0.5:
         case['i0'] = [gc.order[0]]; case['rho'] = F(1, 4)
     elif r < 0.12:
-        case['i0'] = None; case['rho'] = rng.choice([None, F(1, 4), F(1, 2), F(3, 8), F(1)])
+        case['i0'] = None; case['rho'] = rng.choice([None, None, F(1, 4), F(1, 2), F(3, 8), F(1)])
         if kind != 'SIS' and case['rho'] is not None and rng.random() < 0.4:
             # rho together with initial_recovereds: rejected with EoNError (model and code)
             case['r0'] = rng.sample(gc.order, min(n, rng.randint(0, 2)))
+        elif kind != 'SIS' and case['rho'] is None and rng.random() < 0.6:
+            # neither rho nor initial_infecteds, initial_recovereds given: the single index node is drawn among the
+            # nodes that are not initially recovered (all of them recovered: ValueError)
+            case['r0'] = rng.sample(gc.order, rng.choice([0, 1, 2, n - 1, n]) if n > 1 else rng.choice([0, 1]))
     else:
         k = rng.randint(1, min(3, n)) if rng.random() < 0.95 else 0
         sel = rng.sample(gc.order, k)
@@ -437,11 +441,14 @@ def initial_sets(case, impl, m):
     if case['i0'] is None:
         k = 1 if case['rho'] is None else int(round(n * float(case['rho'])))
         log = impl['log']
-        if not log or log[0][0] != 'S' or log[0][1] != k or sorted(log[0][2]) != [(i,) for i in range(n)]:
-            return None, None, 'initial infected nodes not drawn as random.sample(all nodes, %d): %r' % (k, log[:1])
-        if k > n or k < 0: return None, None, None
+        # the random index nodes are drawn among the nodes that are not initially recovered, in graph order
+        excl = {im[u] for u in (case['r0'] or [])} if case['kind'] != 'SIS' else set()
+        want = [(i,) for i in range(n) if i not in excl]
+        if not log or log[0][0] != 'S' or log[0][1] != k or sorted(log[0][2]) != want:
+            return None, None, 'initial infected nodes not drawn as random.sample(nodes that are not initially recovered, %d): %r' % (k, log[:1])
+        if k > len(want) or k < 0: return None, None, None
         draws = m['draws'] if m else []
-        r = int(draws[0]) % max(1, n)
+        r = int(draws[0]) % max(1, len(want))
         pop = sorted(log[0][2]); I0 = [x[0] for x in (pop[r:] + pop[:r])[:k]]
     else:
         I0 = [im[u] for u in case['i0']]
